@@ -612,6 +612,50 @@ def tie_deps(ctx):
                 ctx.violation(key, f"`{body}` ({sig}): regular is {ro} ({rv if ro != 'ok' else ''}) but comptime is {co} ({cv if co != 'ok' else ''})", rep)
 
 
+# ---------------------------------------------------------------------- constant-reuse probes
+# Multi-statement bodies that mention Python constants which are EQUAL as Python values but have different Guppy
+# types (1 / 1.0 / True, 0 / 0.0 / -0.0 / False, 2 / 2.0), and the same constant twice: a tracer that identifies
+# constants by value (a cache, an interning table) gives the later statement the earlier statement's object.
+CONST_FAMILIES = {
+    "one": ["1", "1.0", "True"],
+    "zero": ["0", "0.0", "-0.0", "False"],
+    "two": ["2", "2.0"],
+}
+VARS = {"x": "int", "n": "nat", "f": "float", "b": "bool"}
+
+
+def _const_stmts(consts):
+    out = []
+    for c in consts:
+        if c in ("True", "False"):
+            out += [f"b & {c}", f"{c} | b", f"b == {c}"]
+        else:
+            for v in ("x", "n", "f"):
+                out += [f"{v} + {c}", f"{c} * {v}"]
+            out.append(f"f - {c}" if not c.startswith("-") else f"1.0 / (f * {c})")
+    return out
+
+
+def const_reuse_cases(ctx):
+    cases = []
+    for fam, consts in CONST_FAMILIES.items():
+        st = _const_stmts(consts)
+        for a in st:
+            for b in st:
+                cases.append((fam, f"z1 = {a}\nz2 = {b}"))
+        for a in st[:6]:
+            cases.append((fam, f"z1 = {a}\nz2 = {st[-1]}\nz3 = {a}"))
+    if ctx.quick:
+        cases = ctx.rng.sample(cases, 45)
+    return cases
+
+
+def tie_const_reuse(ctx):
+    sig = ", ".join(f"{v}: {t}" for v, t in VARS.items())
+    for fam, body in const_reuse_cases(ctx):
+        _check_pair(ctx, "constreuse:" + fam, sig, "None", body, None, "", wiring=True)
+
+
 def _binary_cases(ctx, ops):
     rng = ctx.rng
     cases = []
@@ -673,6 +717,7 @@ def tie(ctx):
     for name, sig, ret, body, cbody in COMPTIME_ONLY_EQUIV:
         _check_pair(ctx, "shape:" + name, sig, ret, body, cbody, CONTAINER_PRELUDE, wiring=False)
     tie_deps(ctx)
+    tie_const_reuse(ctx)
 
 
 def _check_pair(ctx, name, sig, ret, body, comptime_body, prelude, wiring, model=None, model_line=None):
